@@ -11,8 +11,11 @@ VARIABLE l
 r == Rec[l]
 
 \* ---- L1
-L1Line == SnapshotConsistent(r.o1) /\ RepeatableRead(r.o1, r.o2)
-L1Sig  == IF ~RepeatableRead(r.o1, r.o2) THEN "not-repeatable" ELSE "mixed-versions"
+\* ... also for a reader that begins after the writer's commit has returned (fin): it must not see the
+\* new entries together with old settings (or the reverse)
+L1Line == SnapshotConsistent(r.o1) /\ RepeatableRead(r.o1, r.o2) /\ SnapshotConsistent(r.fin)
+L1Sig  == IF ~RepeatableRead(r.o1, r.o2) THEN "not-repeatable"
+          ELSE IF ~SnapshotConsistent(r.fin) THEN "mixed-after-commit" ELSE "mixed-versions"
 
 \* ---- L2: run the released pause points through the step lists of section C
 StepOf(steps, lab) == CHOOSE i \in 1..Len(steps) : steps[i].l = lab
